@@ -41,6 +41,7 @@ type Contract struct {
 	Pure        bool
 	MayPanic    bool
 	AssumeFrame bool
+	IsFunction  bool
 	Callbacks   map[string]bool
 	DeadCode    map[string]bool
 	AllocBound  ast.Expr
@@ -305,6 +306,12 @@ func parseContractFile(path, pkg string) (*ContractFile, error) {
 			cur.MayPanic = true
 		case "assume-frame":
 			cur.AssumeFrame = true
+		case "function":
+			// result is a function of the arguments only (no heap reads or writes): calls are modelled by an
+			// uninterpreted function constrained by the postconditions; checked: the body must not touch the heap
+			cur.IsFunction = true
+			cur.Pure = true
+			cur.HasModifies = true
 		case "callback":
 			// callback <param> modifies nothing
 			n, r2 := splitWord(rest)
